@@ -35,7 +35,7 @@ fn meta() -> Meta {
     Meta {
         id: "C18",
         level: "model_checking",
-        rule: "every word up to the depth bound over {W(5), W(80) (> buffer capacity 64), F, ExtRename, ExtRemove, Reopen, Reset(basename), Reset(directory), Reset(rotation toggled), R, ExtRename of the additional file writer's file}; every write also sends one record to the additional file writer X x {Direct, BufferDontFlush(64), BufferAndFlush(64)} x {no rotation, Numbers, TimestampsDirect}; external rename/remove applies to the file currently written to and is only issued when that file exists; states = distinct model states (number of physical files, their record counts) reached, non-trivial = word contains an external rename/remove followed by a reopen, or a reset, with writes before and after; every word with append on and off; ReopenFault = reopen_output while the first re-open it attempts fails by injection (the error is returned, the other writer is switched nevertheless); ExtRenameCreate = rename the current file and create an empty file at its path (logrotate create)",
+        rule: "every word up to the depth bound over {W(5), W(80) (> buffer capacity 64), F, ExtRename, ExtRemove, Reopen, Reset(basename), Reset(directory), Reset(rotation toggled), R, ExtRename of the additional file writer's file}; every write also sends one record to the additional file writer X x {Direct, BufferDontFlush(64), BufferAndFlush(64)} x {no rotation, Numbers, TimestampsDirect}; external rename/remove applies to the file currently written to and is only issued when that file exists; states = distinct model states (number of physical files, their record counts) reached, non-trivial = word contains an external rename/remove followed by a reopen, or a reset, with writes before and after; every word with append on and off; ReopenFault = reopen_output while the first re-open it attempts fails by injection (the error is returned, the other writer is switched nevertheless; in the units with append, once the writers are active, the failure is real instead: the directory tree is moved away for the duration of the call, the error is returned and both writers keep the files they have open; in the units without append, when the current file was moved or removed before, a directory is put at its path for the duration of the call: the error is returned and the records logged afterwards are either in the file the writer had open or in the visible substitute file the re-open code leaves next to the path); ExtRenameCreate = rename the current file and create an empty file at its path (logrotate create)",
         assumptions: vec![
             "size limit huge (rotation only when triggered), append on (a reset back to an earlier family continues it)".into(),
             "records the user destroyed with ExtRemove are exempt".into(),
@@ -348,6 +348,70 @@ fn run_word(mode: ModeK, rot: Option<NamingK>, append: bool, word: &[Op]) -> Res
                         detail: e.to_string(),
                     })?;
                     xfiles[xcur].0 = to;
+                }
+            }
+            Op::ReopenFault if append && m.cur.is_some() => {
+                // a failure for real: the whole directory tree of the log files is moved away for
+                // the duration of the call, so that no re-open (and no fallback) can succeed; the
+                // error is returned and both writers keep the files they have open
+                let away = env.dir.with_extension("away");
+                std::fs::rename(&env.dir, &away).map_err(|e| Fail {
+                    clause: "machinery",
+                    at: i,
+                    detail: format!("rename {}: {e}", env.dir.display()),
+                })?;
+                let r = handle.reopen_output();
+                std::fs::rename(&away, &env.dir).map_err(|e| Fail {
+                    clause: "machinery",
+                    at: i,
+                    detail: format!("rename back {}: {e}", away.display()),
+                })?;
+                if r.is_ok() {
+                    return Err(Fail {
+                        clause: "reopen-failure-unreported",
+                        at: i,
+                        detail: "the log directory was moved away, so no file could be re-opened, but reopen_output returned Ok".into(),
+                    });
+                }
+            }
+            Op::ReopenFault if !append && m.cur.is_some() && m.cur_path.as_ref().is_some_and(|p| !exists(p)) => {
+                // another failure for real: the current file was moved or removed, and a
+                // directory is in the way at its path for the duration of the call (the re-open
+                // fails, creating a file next to it would succeed); the error is returned, the
+                // writer keeps the file it has open, the additional writer is switched
+                let p = m.cur_path.clone().unwrap();
+                std::fs::create_dir(&p).map_err(|e| Fail {
+                    clause: "machinery",
+                    at: i,
+                    detail: format!("mkdir {}: {e}", p.display()),
+                })?;
+                let r = handle.reopen_output();
+                std::fs::remove_dir(&p).map_err(|e| Fail {
+                    clause: "machinery",
+                    at: i,
+                    detail: format!("rmdir {}: {e}", p.display()),
+                })?;
+                if r.is_ok() {
+                    return Err(Fail {
+                        clause: "reopen-failure-unreported",
+                        at: i,
+                        detail: format!("a directory was at {} but reopen_output returned Ok", p.display()),
+                    });
+                }
+                if xfiles[xcur].0 != xpath {
+                    xfiles.push((xpath.clone(), Vec::new()));
+                    xcur = xfiles.len() - 1;
+                }
+                // where the records go after the failure is not prescribed, as long as they are
+                // not lost: either the writer keeps the file it had open, or it uses the visible
+                // substitute that the re-open code creates next to the path
+                let substitute = p.with_extension("ShortLivingTempFileForReOpen");
+                if exists(&substitute) {
+                    m.files.push(PFile {
+                        path: Some(substitute),
+                        lines: Vec::new(),
+                    });
+                    m.cur = Some(m.files.len() - 1);
                 }
             }
             Op::Reopen | Op::ReopenFault => {
